@@ -19,9 +19,9 @@ from checks import storegen as sg
 PROP = "C03"
 THEOREMS = [
     "log_replay_txn", "rewrite_preserves_replay", "reopen_refines_partial",
-    "reopen_fails_view_witness", "reopen_fails_stale_dv_witness", "reopen_refines_full_unsound",
-    "reopen_idempotent", "reopen_cycles", "ids_fresh_after_reopen_partial", "ids_fresh_full_unsound",
-    "stale_dv_hides_new_rows",
+    "reopen_fails_view_witness", "drop_after_compaction_reopens", "reopen_refines_full_unsound",
+    "reopen_idempotent", "reopen_cycles", "ids_fresh_after_reopen_partial", "ids_fresh_full",
+    "no_stale_dv_hides_new_rows", "dv_file_reuse_witness",
     "history_reaches_invariant", "reopen_refines", "reopen_accepts_ops",
 ]
 WEIGHTS = {"insert": 28, "delete": 14, "compact": 9, "vacuum": 4, "reopen": 17, "create": 10, "drop": 8,
@@ -49,13 +49,18 @@ def witnesses():
     w_dv = [cr(a), ins(a, [1, 2]), ins(a, [3]),
             {"k": "delete", "table": "t0", "pred": ("cmp", 0, "eq", 1), "def": a, "sql": "delete from t0 where (x = 1)"},
             {"k": "compact"}, {"k": "drop", "name": "t0", "sql": "drop table t0"}, {"k": "reopen"}]
+    dall = {"k": "delete", "table": "t0", "pred": ("true",), "def": a, "sql": "delete from t0"}
+    w_file = [cr(a), ins(a, [1, 2]), ins(a, [3]),
+              {"k": "delete", "table": "t0", "pred": ("cmp", 0, "ne", 3), "def": a, "sql": "delete from t0 where (x <> 3)"},
+              dall, {"k": "compact"}, {"k": "reopen"}, {"k": "reopen"}, ins(a, [5]), dall]
     w_view = [cr(a), view, {"k": "reopen"}]
     w_idx = [cr(a), {"k": "index", "name": "i0", "table": "t0", "sql": "create index i0 on t0 using btree (x)"}, cr(b), ins(b, [4]), {"k": "reopen"}]
     o = (4096, 128, 1, 1)
     return [
         sg.make_hist(900001, o, NAMES, w_panic, expect_sig="reopen:view-shifts-table-id"),
         sg.make_hist(900002, o, NAMES, w_swap, expect_sig="reopen:view-shifts-table-id"),
-        sg.make_hist(900003, o, NAMES, w_dv, expect_sig="reopen:stale-dv-of-dropped-table"),
+        sg.make_hist(900003, o, NAMES, w_dv),      # former finding reopen:stale-dv-of-dropped-table (fixed 5071ff5): must simply agree
+        sg.make_hist(900006, o, NAMES, w_file, expect_sig="delete:dv-file-reused-after-reopen"),
         sg.make_hist(900004, o, NAMES, w_view, expect_sig="reopen:view-not-persisted"),
         sg.make_hist(900005, o, NAMES, w_idx, expect_sig="reopen:view-shifts-table-id"),
     ]
